@@ -91,78 +91,79 @@ Definition dstep (code : list xcode) (d : dstate) : (state * N * state) + (final
 Definition flushed (io : state) : devent := DvFlush (rev (outb io)) (rev (errb io)).
 Definition clear_io (io : state) : state := with_fresh_io io.
 
-(* the main loop; [lines] are the lines still to be read from the debugger's stdin *)
+(* one iteration of the main loop: the events it shows and either the end of the session or the lines still to
+   be read together with the next debugger state *)
+Definition dtrans (fx11 fx13 : bool) (code : list xcode) (lines : list (list N)) (d : dstate)
+  : list devent * (dend + (list (list N) * dstate)) :=
+  match hist d with
+  | [] => ([], inl DPanic)
+  | (s, pc) :: older =>
+    let len := N.of_nat (length code) in
+    if len <=? pc then ([flushed (dio d)], inl DFinished)
+    else if running d then
+      if mem_N pc (brk d) then ([flushed (dio d)], inr (lines, mkd (hist d) (brk d) false (clear_io (dio d))))
+      else match dstep code d with
+           | inl (s', pc', io') => ([], inr (lines, mkd ((s', pc') :: hist d) (brk d) true io'))
+           | inr (FExit k io') => ([flushed io'], inl (DProgExit k))
+           | inr (FErr e io') => ((if fx13 then [flushed io'] else []), inl (DFail e))
+           | inr _ => ([], inl DPanic)
+           end
+    else
+      match lines with
+      | [] => ([DvPrompt], inl DEof)
+      | line :: rest =>
+        let toks := split_sp (trim line) [] in
+        let t0 := hd [] toks in
+        let again evs := (DvPrompt :: evs, inr (rest, d)) in
+        if is_word t0 w_next 110 then
+          match dstep code d with
+          | inl (s', pc', io') =>
+              ([DvPrompt; DvShowCode [pc]; flushed io'], inr (rest, mkd ((s', pc') :: hist d) (brk d) false (clear_io io')))
+          | inr (FExit k io') => ([DvPrompt; DvShowCode [pc]; flushed io'], inl (DProgExit k))
+          | inr (FErr e io') => ([DvPrompt; DvShowCode [pc]] ++ (if fx13 then [flushed io'] else []), inl (DFail e))
+          | inr _ => ([DvPrompt], inl DPanic)
+          end
+        else if is_word t0 w_previous 112 then
+          match older with
+          | [] => again [DvCantGoBack]
+          | _ => ([DvPrompt; DvMovedBack], inr (rest, mkd older (brk d) false (dio d)))
+          end
+        else if is_word t0 w_run 114 then
+          match dstep code d with
+          | inl (s', pc', io') => ([DvPrompt], inr (rest, mkd ((s', pc') :: hist d) (brk d) true io'))
+          | inr (FExit k io') => ([DvPrompt; flushed io'], inl (DProgExit k))
+          | inr (FErr e io') => (DvPrompt :: (if fx13 then [flushed io'] else []), inl (DFail e))
+          | inr _ => ([DvPrompt], inl DPanic)
+          end
+        else if is_word t0 w_state 115 then again [DvState (N.of_nat (length older))]
+        else if is_word t0 w_break 98 then
+          match tl toks with
+          | [] => if forallb (fun i => i <? len) (brk d) then again [DvListBreaks; DvShowCode (sort_asc (brk d))]
+                  else ([DvPrompt], inl DPanic)
+          | w :: _ =>
+              match parse_usize w with
+              | inr e => again [DvIntErr e]
+              | inl n =>
+                  if (if fx11 then len <=? n else len <? n) then again [DvRange]
+                  else if mem_N n (brk d) then ([DvPrompt; DvUnset n], inr (rest, mkd (hist d) (remove_N n (brk d)) false (dio d)))
+                  else ([DvPrompt; DvSet n], inr (rest, mkd (hist d) (n :: brk d) false (dio d)))
+              end
+          end
+        else if is_word t0 w_help 104 then again [DvHelp]
+        else if leqb t0 w_exit then ([DvPrompt], inl DQuit)
+        else if leqb t0 [] then again []
+        else again [DvNotFound t0]
+      end
+  end.
+
 Fixpoint dloop (fx11 fx13 : bool) (fuel : nat) (code : list xcode) (lines : list (list N)) (d : dstate)
   : list devent * dend :=
   match fuel with
   | O => ([], DFuelOut)
-  | S f =>
-    match hist d with
-    | [] => ([], DPanic)
-    | (s, pc) :: older =>
-      let len := N.of_nat (length code) in
-      if len <=? pc then ([flushed (dio d)], DFinished)
-      else if running d then
-        if mem_N pc (brk d) then
-          let (ev, e) := dloop fx11 fx13 f code lines (mkd (hist d) (brk d) false (clear_io (dio d))) in (flushed (dio d) :: ev, e)
-        else match dstep code d with
-             | inl (s', pc', io') => dloop fx11 fx13 f code lines (mkd ((s', pc') :: hist d) (brk d) true io')
-             | inr (FExit k io') => ([flushed io'], DProgExit k)
-             | inr (FErr e io') => (if fx13 then [flushed io'] else [], DFail e)
-             | inr _ => ([], DPanic)
-             end
-      else
-        match lines with
-        | [] => ([DvPrompt], DEof)
-        | line :: rest =>
-          let toks := split_sp (trim line) [] in
-          let t0 := hd [] toks in
-          let again evs := let (ev, e) := dloop fx11 fx13 f code rest d in (DvPrompt :: evs ++ ev, e) in
-          if is_word t0 w_next 110 then
-            match dstep code d with
-            | inl (s', pc', io') =>
-                let (ev, e) := dloop fx11 fx13 f code rest (mkd ((s', pc') :: hist d) (brk d) false (clear_io io')) in
-                (DvPrompt :: DvShowCode [pc] :: flushed io' :: ev, e)
-            | inr (FExit k io') => ([DvPrompt; DvShowCode [pc]; flushed io'], DProgExit k)
-            | inr (FErr e io') => ([DvPrompt; DvShowCode [pc]] ++ (if fx13 then [flushed io'] else []), DFail e)
-            | inr _ => ([DvPrompt], DPanic)
-            end
-          else if is_word t0 w_previous 112 then
-            match older with
-            | [] => again [DvCantGoBack]
-            | _ => let (ev, e) := dloop fx11 fx13 f code rest (mkd older (brk d) false (dio d)) in (DvPrompt :: DvMovedBack :: ev, e)
-            end
-          else if is_word t0 w_run 114 then
-            match dstep code d with
-            | inl (s', pc', io') =>
-                let (ev, e) := dloop fx11 fx13 f code rest (mkd ((s', pc') :: hist d) (brk d) true io') in (DvPrompt :: ev, e)
-            | inr (FExit k io') => ([DvPrompt; flushed io'], DProgExit k)
-            | inr (FErr e io') => (DvPrompt :: (if fx13 then [flushed io'] else []), DFail e)
-            | inr _ => ([DvPrompt], DPanic)
-            end
-          else if is_word t0 w_state 115 then again [DvState (N.of_nat (length older))]
-          else if is_word t0 w_break 98 then
-            match tl toks with
-            | [] => if forallb (fun i => i <? len) (brk d) then again [DvListBreaks; DvShowCode (sort_asc (brk d))] else ([DvPrompt], DPanic)
-            | w :: _ =>
-                match parse_usize w with
-                | inr e => again [DvIntErr e]
-                | inl n =>
-                    if (if fx11 then len <=? n else len <? n) then again [DvRange]
-                    else if mem_N n (brk d) then
-                      let (ev, e) := dloop fx11 fx13 f code rest (mkd (hist d) (remove_N n (brk d)) false (dio d)) in
-                      (DvPrompt :: DvUnset n :: ev, e)
-                    else
-                      let (ev, e) := dloop fx11 fx13 f code rest (mkd (hist d) (n :: brk d) false (dio d)) in
-                      (DvPrompt :: DvSet n :: ev, e)
-                end
-            end
-          else if is_word t0 w_help 104 then again [DvHelp]
-          else if leqb t0 w_exit then ([DvPrompt], DQuit)
-          else if leqb t0 [] then again []
-          else again [DvNotFound t0]
-        end
-    end
+  | S f => match dtrans fx11 fx13 code lines d with
+           | (evs, inl e) => (evs, e)
+           | (evs, inr (lines', d')) => let (ev, e) := dloop fx11 fx13 f code lines' d' in (evs ++ ev, e)
+           end
   end.
 
 Definition debug_run (fx11 fx13 : bool) (fuel : nat) (code : list xcode) (lines : list (list N)) : list devent * dend :=
